@@ -192,3 +192,69 @@ class TcpLoop:
             steps.append(st)
         await self.close()
         return steps
+
+
+class RunLoop:
+    """The virtual ECU served by the REAL `UnixUDSServerTransport.run()` (asyncio.start_unix_server, real sockets, real
+    event loop) and asked by the real client over `UnixLinesTransport`: whatever run() configures on the listening
+    side (stream limits, ...) is in play, unlike in TcpLoop where the harness creates the streams."""
+
+    def __init__(self, server: Any, path: str) -> None:
+        self.server = server
+        self.uri = TargetURI(f"unix-lines://{path}")
+        self.st = srv.UnixUDSServerTransport(server, self.uri)
+        self.path = path
+
+    def state(self) -> tuple[int, int]:
+        st = self.server.state
+        lvl = st.security_access_level
+        return int(st.session), (-1 if lvl is None else int(lvl))
+
+    async def history(self, pdus: list[bytes], *, timeout: float = 2.0) -> list[dict[str, Any]]:
+        import os
+
+        from gallia.transports import UnixLinesTransport
+
+        task = asyncio.ensure_future(self.st.run())
+        for _ in range(300):
+            if os.path.exists(self.path):
+                break
+            await asyncio.sleep(0.01)
+        steps: list[dict[str, Any]] = []
+        client: UDSClient | None = None
+        try:
+            for pdu in pdus:
+                if client is None:
+                    client = UDSClient(await UnixLinesTransport.connect(self.uri), timeout=timeout, max_retry=0)
+                exc: BaseException | None = None
+                resp = None
+                try:
+                    resp = await client.request(service.RawRequest(pdu))
+                except Exception as e:  # noqa: BLE001
+                    exc = e
+                lost = isinstance(exc, MissingResponse) and isinstance(exc.__cause__, ConnectionError)
+                reply = None
+                if resp is not None:
+                    reply = bytes(resp.pdu)
+                elif isinstance(exc, (RequestResponseMismatch, MalformedResponse)) and exc.response is not None:
+                    reply = bytes(exc.response.pdu)
+                steps.append(step_record(pdu, "unknown", b"", reply, "", self.state(), acc=classify(exc, resp),
+                                         alive=not lost))
+                if lost:
+                    try:
+                        await client.transport.close()
+                    except Exception:  # noqa: BLE001
+                        pass
+                    client = None
+        finally:
+            if client is not None:
+                try:
+                    await client.transport.close()
+                except Exception:  # noqa: BLE001
+                    pass
+            task.cancel()
+            try:
+                await asyncio.wait_for(asyncio.shield(task), 3.0)
+            except BaseException:  # noqa: BLE001
+                pass
+        return steps
